@@ -281,6 +281,10 @@ func init() {
 	register("scn.measure", func(a []string) string {
 		body := time.Duration(atoi(a[0])) * time.Millisecond
 		cleanup := time.Duration(atoi(a[1])) * time.Millisecond
+		end := "pass"
+		if len(a) > 2 {
+			end = a[2]
+		}
 		var as *workers.ActiveScenario
 		var m *metrics.Metrics
 		var bodyOwn time.Duration
@@ -297,6 +301,16 @@ func init() {
 				t0 := time.Now()
 				time.Sleep(body)
 				bodyOwn = time.Since(t0)
+				switch end { // how the body ends (a[2], default pass)
+				case "failnow":
+					t.FailNow()
+				case "panic":
+					panic("scripted")
+				case "fail":
+					t.Fail()
+				case "require":
+					t.Require().Equal(1, 2)
+				}
 			}
 		}}
 		var stats *progress.Stats
@@ -306,6 +320,9 @@ func init() {
 		as.VerifIterate(st, "1")
 		tot := stats.Total()
 		rec := tot.SuccessfulIterationDurations.Max
+		if end != "pass" {
+			rec = tot.FailedIterationDurations.Max
+		}
 		ge := 0
 		if rec >= bodyOwn {
 			ge = 1
@@ -315,7 +332,7 @@ func init() {
 			lt = 1
 		}
 		return fmt.Sprintf("recordedAtCleanup=%d geBody=%d ltBodyPlusHalfCleanup=%d count=%d",
-			recordedAtCleanup, ge, lt, tot.SuccessfulIterationDurations.Count)
+			recordedAtCleanup, ge, lt, tot.SuccessfulIterationDurations.Count+tot.FailedIterationDurations.Count)
 	})
 
 	// scn.counts <workers> <itersPerWorker> <seed> — two consecutive "runs" on ONE metrics instance (reset at
